@@ -275,6 +275,40 @@ func c09ResponseSubsets(c *Ctx) {
 			}
 		}
 	}
+	// counts: a Response that is valid in every respect and holds ZERO assertions (signed / unsigned, both entry
+	// points), and one with many
+	for _, signed := range []bool{true, false} {
+		for _, entry := range []int{0, 1} {
+			for _, count := range []int{0, 5} {
+				n++
+				rs, as := validSpecs(cfg, now, fmt.Sprint(n))
+				var kids []*Node
+				for k := 0; k < count; k++ {
+					s := as
+					s.ID = fmt.Sprintf("%s-%d", as.ID, k)
+					a := buildAssertion(s)
+					if !signed {
+						SignInto(a, 0)
+					}
+					kids = append(kids, a)
+				}
+				r := buildResponse(rs, kids...)
+				if signed {
+					SignInto(r, 0)
+				}
+				run := &Run{Cfg: cfg, IDs: []string{"req-1"}, Now: now, Cur: cfg.AcsURL, Doc: r, Entry: entry}
+				if entry == 1 {
+					ars := RespSpec{Tag: "ArtifactResponse", ID: fmt.Sprintf("ar-cnt-%d", n), IRT: sp("resolve-1"), Issue: rs.Issue, Issuer: sp(cfg.IdpEntity), Status: sp(statusSuccess)}
+					ar := buildResponse(ars, r)
+					if !signed {
+						SignInto(ar, 0)
+					}
+					run.Doc, run.Rid = soapWrap(ar), "resolve-1"
+				}
+				addRun(c, g, run, map[string]string{"class": "assertion-count", "assertions": fmt.Sprint(count), "response_signed": fmt.Sprint(signed), "entry": fmt.Sprint(entry)}, true)
+			}
+		}
+	}
 	{ // plaintext whose root is not an Assertion (signed by the IdP all the same)
 		n++
 		rs, as := validSpecs(cfg, now, fmt.Sprint(n))
